@@ -8,13 +8,16 @@ def run(ctx):
     pre = ctx.path("crypto")
     out, dt = vf.run_driver(["crypto", "-out", pre, "-seed", str(ctx.seed), "-tier", ctx.tier])
     ctx.timings["crypto"] = round(dt, 2)
-    ctx.correspondence("crypto: real XChaCha20-Poly1305 crypter (round trip, other key, EVERY bit flip, every truncation, junk) vs Model/Crypt.v (ideal AEAD)",
+    ctx.correspondence("crypto: real XChaCha20-Poly1305 crypter (round trip, other key, EVERY bit flip, every truncation, junk) vs Model/Crypt.v (ideal AEAD); "
+                       "data keys of successive logins (identity, store-level substitution between sessions) through the real stack vs Model/Crypt.v mint_all",
                        pre + ".in", pre + ".impl")
     # monitor 1: no tampered / foreign-key ciphertext decrypts; untouched ones round-trip
     ops = {}
     with open(pre + ".in") as fi, open(pre + ".impl") as fo:
         for li, lo in zip(fi, fo):
             t = li.split()
+            if t[0] != "crypt":
+                continue   # dekmint / dekswap lines (data keys of sessions): the observations below carry their monitor
             sk, ok, op, arg, pt = t[1], t[2], int(t[3]), t[4], t[5]
             ops[op] = ops.get(op, 0) + 1
             good = lo.startswith("ok")
@@ -43,6 +46,20 @@ def run(ctx):
                 ctx.violation("c09-substitution-accepted", "modified / substituted cookie or store value was treated as a valid session", o)
             if o["class"] == "valid" and not authenticated:
                 ctx.violation("c09-own-cookie-rejected", "the session's own cookie was not accepted", o)
+        elif o["kind"] == "deks":
+            # "the data key carried in that user's own cookie": every session gets a data key no other session has - also when
+            # the callback request carried the cookie of an earlier session of the same browser (same or different provider session id)
+            seen = {}
+            for l in o["logins"]:
+                if l["data_key_bytes"] != 32:
+                    ctx.violation("c09-data-key-size", "a session's data key is not 256 bits", dict(o, login=l))
+                if l["data_key_id"] in seen:
+                    ctx.violation("c09-data-key-reused",
+                                  "the session of login %d (provider session id %s, callback request carrying the session cookie of login %s) is sealed under the same "
+                                  "data key as the session of login %d" % (l["login"], l["sid"], l["carried_cookie_of_login"], seen[l["data_key_id"]]), o)
+                seen.setdefault(l["data_key_id"], l["login"])
+            distinct.add(("deks", o["redis"]))
+            ctx.extra.setdefault("data_keys", []).append({"redis": o["redis"], "logins": len(o["logins"]), "distinct_keys": len(seen)})
         elif o["kind"] == "scan":
             ctx.extra.setdefault("scans", []).append({k: o[k] for k in ("redis", "values_scanned", "secrets")})
             for leak in o["leaks"]:
@@ -53,6 +70,8 @@ def run(ctx):
     ctx.rule = ("ciphertexts of sizes {0,1,15,16,17,64,300(,4096,65536)}: round trip, other key, every single bit flipped, every proper prefix and suffix, junk; "
                 "20 000 encryptions for nonce uniqueness; through the real stack (both stores): swap matrix {own, other session, login cookie, logout cookie, foreign deployment key, "
                 "every short prefix / suffix truncation, ticket with another session's data key, unknown key, bit flips of the ticket, store blob of B under key A, truncated store values} x {proxy, session info, forward-auth}; "
+                "re-logins of a browser that still holds its previous session cookie (the callback carries it; another and the same provider session id; two browsers, three generations): "
+                "identity of the data keys sealed in the tickets, every ordered pair substituted at store level (cookie of i + stored value of j), old cookie against the replacing entry; "
                 "secret scan of every cookie / store value written during login and refresh")
     ctx.assumptions += ["ideal AEAD: 'tamper-evident for every bit' is a fact about XChaCha20-Poly1305 that Coq does not prove here; it enters as the symbolic decryption rule and is supported by the exhaustive bit-flip run",
                         "configuration legacy-cookie=true (access token in a clear cookie, by design) is outside the property's quantifier and not exercised"]
